@@ -264,6 +264,7 @@ impl Report {
             e.1 += 1;
             return;
         }
+        let replay_dir = &std::env::var("VERIF_REPLAY_DIR").unwrap_or_else(|_| replay_dir.to_string());
         let _ = std::fs::create_dir_all(replay_dir);
         let path = format!("{replay_dir}/{}-{name}.json", self.property);
         let mut r = v.replay.clone();
@@ -312,6 +313,8 @@ impl Evidence {
         self.start.elapsed().as_secs_f64()
     }
     pub fn write(&self, dir: &str) {
+        // a long background run can be told to write elsewhere so that it does not overwrite the evidence of the registered commands
+        let dir = &std::env::var("VERIF_EVIDENCE_DIR").unwrap_or_else(|_| dir.to_string());
         let wall = self.start.elapsed().as_secs_f64();
         let mut cov = self.coverage.clone();
         if let Some(ev) = cov.get("evaluations").and_then(|v| v.as_u64()) {
